@@ -440,6 +440,55 @@ fn run(case: &Case, out: &mut Out) {
                     }
                 }
             }
+            "h2toh1" => {
+                // the blocks ConnectionH2::handle_data_frame pushes for an upload without content-length
+                // (shape tied to the source by props/c01.py:translate), written by kawa's H1 converter
+                let ended = a[0].n() != 0;
+                let end_chunk_flag = a[1].n() != 0;
+                let frames: Vec<Vec<u8>> = a[2..].iter().map(|t| t.b().to_vec()).collect();
+                let mut storage = vec![0u8; 16];
+                let mut kawa = kawa::Kawa::new(kawa::Kind::Request, kawa::Buffer::new(kawa::SliceBuffer(&mut storage)));
+                kawa.body_size = kawa::BodySize::Chunked;
+                kawa.parsing_phase = kawa::ParsingPhase::Chunks { first: false };
+                for (i, f) in frames.iter().enumerate() {
+                    let content_len = f.len();
+                    let last = ended && i + 1 == frames.len();
+                    if content_len > 0 {
+                        kawa.push_block(kawa::Block::ChunkHeader(kawa::ChunkHeader { length: kawa::Store::from_vec(format!("{content_len:x}").into_bytes()) }));
+                        kawa.push_block(kawa::Block::Chunk(kawa::Chunk { data: kawa::Store::from_vec(f.clone()) }));
+                        kawa.push_block(kawa::Block::Flags(kawa::Flags { end_body: false, end_chunk: true, end_header: false, end_stream: false }));
+                    }
+                    if last {
+                        kawa.push_block(kawa::Block::Flags(kawa::Flags { end_body: true, end_chunk: end_chunk_flag, end_header: false, end_stream: true }));
+                        kawa.parsing_phase = kawa::ParsingPhase::Terminated;
+                    }
+                }
+                if ended && frames.is_empty() {
+                    kawa.push_block(kawa::Block::Flags(kawa::Flags { end_body: true, end_chunk: end_chunk_flag, end_header: false, end_stream: true }));
+                }
+                kawa.prepare(&mut kawa::h1::BlockConverter);
+                let mut wire = vec![];
+                for b in kawa.out.iter() {
+                    if let kawa::OutBlock::Store(st) = b {
+                        wire.extend_from_slice(st.data(kawa.storage.buffer()));
+                    }
+                }
+                // what a strict HTTP/1.1 recipient makes of it
+                let mut msg = b"HTTP/1.1 200 OK\r\nTransfer-Encoding: chunked\r\n\r\n".to_vec();
+                msg.extend_from_slice(&wire);
+                let (body, complete, bad) = match read_h1(&msg, false) {
+                    Ok((b, c)) => (b, c, false),
+                    Err(_) => (vec![], false, true),
+                };
+                out.obs(&[tb(&wire), tb(&body), tbool(complete), tbool(bad)]);
+                let want: Vec<u8> = frames.concat();
+                if bad || body != want {
+                    out.viol("h2h1-body", &format!("H2 upload of {} bytes reaches the HTTP/1.1 side as {} bytes (malformed={bad})", want.len(), body.len()));
+                }
+                if complete != ended {
+                    out.viol("h2h1-terminator", &format!("H2 upload ended={ended}: the chunked message on the HTTP/1.1 side is complete={complete} (last-chunk must be `0 CRLF CRLF`)"));
+                }
+            }
             "h2conv" => {
                 // h2conv <max> <ended> <seed> W <w>.. C <n>..
                 let max = a[0].n() as usize;
